@@ -22,6 +22,7 @@ import multiprocessing as mp
 import os
 from typing import Any
 
+from .. import cfg as cfgmod
 from .. import isa
 from ..core import REPO, AnalysisError, Ctx
 from ..isa_abs import ASSUMPTIONS
@@ -103,6 +104,9 @@ def run(ctx: Ctx) -> None:
     dispatch(ctx, rs)
     feature_parity(ctx, py, rs, rows, ok_base)
     fetch_and_low_power(ctx, py, rs)
+    pointer_destination_conflict(ctx, py, rs, rows)
+    from .c01 import lookahead
+    lookahead(ctx, py, rule="C06.9/lookahead-isolation", why="the Rust core decodes one instruction from the bytes at PC and never looks at what follows it, so the cores would disagree on length and effect")
     ctx.extra["exhaustive"] = True
 
 
@@ -388,3 +392,45 @@ def fetch_and_low_power(ctx: Ctx, py: PyProgram, rs: RustProgram) -> None:
     if not idx or early:
         ctx.violation("C06.9/low-power-unconditional", key_of(rf.file, rf.qual, "power state on every path"), "the Rust HALT/OFF helper does not set the power state on every path", rf.where)
     ctx.instance("C06.9/lockstep-shape", "fetch not memoised; HALT/OFF state change unconditional in both cores", n, 4)
+
+
+def pointer_destination_conflict(ctx: Ctx, py: PyProgram, rs: RustProgram, rows: dict) -> None:
+    """`MV r3,[r3++]` / `MV r3,[--r3]` with the pointer register also the destination: one of the two writes to that register wins.
+    The Python IL decides which (its last write); the Rust move helper must make the same choice, which shows as a register-identity
+    guard around its pointer side effect."""
+    from ..isa_sweep import Sweeper
+    sw = Sweeper()
+    n = 0
+    verdicts = set()
+    regidx = {"X": 4, "Y": 5, "U": 6, "S": 7}
+    for op, r in sorted(rows.items()):
+        if not (r.ops and len(r.ops) == 2 and r.ops[0].ctor in ("Reg", "Reg3") and r.ops[1].ctor == "EMemReg" and r.cls in ("MV", "MVW", "MVP")):
+            continue
+        for mode in (0x20, 0x30):
+            for reg, idx in regidx.items():
+                c = sw.run_case(None, op, mode | idx, ("render", "lift"))
+                if c.status != "ok" or c.lift_exc:
+                    continue
+                dest = [t for k, t in c.tokens if k == "TReg"]
+                if not dest or dest[0] != reg or sum(1 for k, t in c.tokens if k == "TReg" and t == reg) < 2:
+                    continue
+                n += 1
+                sets = [s_ for s_ in c.il if s_.startswith(f"set_reg(3, '{reg}'") or s_.startswith(f"set_reg(2, '{reg}'") or s_.startswith(f"set_reg(1, '{reg}'")]
+                if sets:
+                    verdicts.add("loaded" if "load(" in sets[-1] else "stepped")
+    ctx.need(n >= 2 and len(verdicts) == 1, f"Python IL of MV r3,[r3++] / [--r3] with equal registers not recovered ({n} cases, {verdicts})")
+    py_final = next(iter(verdicts))
+    fn = rs.fn(isa.EVAL_RS, "LlamaExecutor::execute_mv_generic")
+    g = cfgmod.build_rs(fn.node, fn.qual)
+    sites = [c_ for c_ in walk(fn.body) if c_.get("k") in ("call", "mcall") and (c_.get("m") == "apply_pointer_side_effect" or expr_text(c_.get("f", {})).endswith("apply_pointer_side_effect"))]
+    ctx.need(bool(sites), "execute_mv_generic: apply_pointer_side_effect call not found")
+    for c_ in sites:
+        n += 1
+        regarg = next((expr_text(a) for a in c_["args"] if a.get("k") == "path" and expr_text(a) not in ("state",)), None)
+        gs = [x for x, _pol, _o in g.guards_of(g.node_of(c_)) if isinstance(x, dict)]
+        identity = any(x.get("k") == "binary" and x["op"] in ("!=", "==") and regarg is not None and any(p_.get("k") == "path" and p_["p"] == regarg for p_ in walk(x)) for x in gs)
+        rs_final = "loaded" if identity else "stepped"
+        if rs_final != py_final:
+            ctx.violation("C06.10/pointer-destination", key_of(fn.file, fn.qual, "pointer side effect when the pointer is the destination"),
+                          f"`MV r3,[r3++]` / `MV r3,[--r3]` with one register as pointer and destination: the Python IL leaves the {py_final} value in it, the Rust helper applies the pointer update {'only when the registers differ' if identity else 'unconditionally, after the load'} - the register ends {rs_final} in Rust", f"{fn.file}:{c_['ln']}")
+    ctx.instance("C06.10/pointer-destination", "MV r3,[r3++]/[--r3] with equal registers: which write wins, Python IL vs Rust move helper", n, 3)
